@@ -179,6 +179,9 @@ class DebugCore(Contract):
 
     def scenario(self, ps, P, case):
         pb, t1, t2 = small_problem(ps, P, optional=False, resources=case["res"])
+        if case["extra"]:
+            # a constraint used as operand of a connective (it is not handed to the solver on its own), declared first
+            ps.Not(constraint=ps.TaskStartAt(task=t2, value=P.int("n")))
         cs = [ps.TaskStartAt(task=t1, value=P.int("a")), ps.TaskStartAt(task=t1, value=P.int("b"), name="second")]
         if case["extra"]:
             cs.append(ps.TaskEndBefore(task=t2, value=P.int("c")))
@@ -213,9 +216,8 @@ class DebugCore(Contract):
             out.append(Clause("native[verdict is False or a solution]", z3.BoolVal(ctx["res"] is False or is_solution(ctx["res"])), props=("C19",), kind="state"))
             return out
         G = solver._solver
-        mp = solver._map_boolrefs_to_constraints
-        # ghost map invariant: a mapped identifier names a constraint of the problem, and the tracked
-        # formula is one of that constraint's own assertions; an unmapped one is a basic rule
+        # ground truth, independent of how the solver remembers it: the owner of a tracked formula is the
+        # top-level constraint (not used inside a combination) holding it, else it is a basic rule
         basic = []
         for t in pb.tasks.values():
             basic += list(t.get_z3_assertions()) + [t._end <= pb._horizon]
@@ -226,16 +228,18 @@ class DebugCore(Contract):
                 basic.append(z3.Or(s2 >= e1, s1 >= e2))
         basic += list(pb.get_z3_assertions())
         basic_ids = {f.get_id() for f in basic}
-        ok = True
-        why = ""
+        top = [c for c in pb.constraints.values() if not c._created_from_assertion]
+        owner = {}
+        ok, why = True, ""
         for f, name in G.tracked():
-            if name in mp:
-                c = pb.constraints.get(mp[name])
-                if c is None or f.get_id() not in {x.get_id() for x in assertions_of(c)}:
-                    ok, why = False, f"{name} -> {mp[name]}"
-            elif f.get_id() not in basic_ids:
-                ok, why = False, f"unmapped tracked formula {f} is not a basic rule"
-        out.append(Clause("invariant[mapped identifiers name the owning constraint; unmapped ones are basic rules]", z3.BoolVal(ok), props=("C19",), kind="invariant", note=why, bounded=self.bounded))
+            cands = [c for c in top if f.get_id() in {x.get_id() for x in assertions_of(c)}]
+            if cands:
+                owner[name] = cands[0]
+            elif f.get_id() in basic_ids:
+                owner[name] = None
+            else:
+                ok, why = False, f"tracked formula {f} is neither a top-level constraint's nor a basic rule"
+        out.append(Clause("invariant[every tracked formula belongs to a top-level constraint or is a basic rule]", z3.BoolVal(ok), props=("C19",), kind="invariant", note=why, bounded=self.bounded))
         if G.last == z3.unsat and ctx["res"] is False:
             core = getattr(G, "core", [])
             names = [c.name for c in core]
@@ -244,7 +248,7 @@ class DebugCore(Contract):
                 for x in a:
                     if hasattr(x, "_created_from_assertion"):
                         listed.append(x)
-            want = [pb.constraints[mp[n]] for n in names if n in mp]
+            want = [owner[n] for n in names if owner.get(n) is not None]
             out.append(Clause("post[the listed constraints are the owners of the core's assertions, all constraints of the problem]", z3.BoolVal([id(x) for x in listed] == [id(x) for x in want] and all(any(x is c for c in pb.constraints.values()) for x in listed)), props=("C19",), kind="sound", bounded=self.bounded))
             # the listed constraints + basic rules contain every formula of the core, hence (solver contract:
             # the core is jointly unsatisfiable) admit no schedule
